@@ -194,8 +194,8 @@ func scanShared(c *core.Ctx) []ob {
 				if recv == nil || r.obj != recv {
 					continue
 				}
-				if w.how == "assignment" && !r.deref && (!ptrRecv || r.field == "") {
-					continue // modifies the value receiver's own copy / a fresh object
+				if w.how == "assignment" && !r.deref && (!ptrRecv || r.field == "" || r.field == "*") {
+					continue // modifies the value receiver's own copy / a fresh object / a local copy `c := *recv`
 				}
 				if r.field == "" {
 					continue
@@ -325,6 +325,18 @@ func scanShared(c *core.Ctx) []ob {
 							if se, ok := unparen(l).(*ast.SelectorExpr); ok {
 								if id, ok := unparen(se.X).(*ast.Ident); ok && copies[info.Uses[id]] {
 									reassigned[se.Sel.Name] = true
+								}
+							}
+						}
+					}
+					// a completion method called on the copy (`cpy.allocateBuffers()`) reassigns what it assigns
+					if call, ok := n.(*ast.CallExpr); ok {
+						if se, ok := unparen(call.Fun).(*ast.SelectorExpr); ok {
+							if id, ok := unparen(se.X).(*ast.Ident); ok && copies[info.Uses[id]] && info.Uses[id] != types.Object(recv) {
+								if m := calleeFunc(info, call); m != nil {
+									for f := range fieldsAssignedByMethod(c.Program, m, 0) {
+										reassigned[f] = true
+									}
 								}
 							}
 						}
